@@ -28,6 +28,7 @@ import OrbProofs.C02FC
 import OrbProofs.C02Total
 import OrbProofs.C02Typed
 import OrbProofs.C02Nil
+import OrbProofs.C02Recv
 
 namespace Orb.GeoJSON
 
@@ -232,6 +233,76 @@ theorem nil_member_doc :
     wellformed (geomDocN .json (.collection [.multiPoint none])) = false ∧
     geomOfDoc .json (geomDocN .json (.collection [.multiPoint none])) = .ok (.val (.collection [.multiPoint []])) :=
   nil_member_doc'
+
+
+/-! ### hand-built `geojson.Geometry` values (`Orb.GeoJSONExt`)
+
+`newGeometryMarshallDoc` converts rings, bounds and collections a SECOND time, for `Geometry` values
+whose fields were set directly (the typed helper types do it; `&geojson.Geometry{Coordinates: b}`).
+These are the statements about that second copy. -/
+
+/-- a hand-built value holding one geometry in `Coordinates` writes what `NewGeometry` writes (every
+    kind but the collection without members, which `NewGeometry` writes as `null`) -/
+theorem hand_doc_eq (c : Codec) (ty : String) (n : NG) (h1 : n.isNilIface = false)
+    (h2 : emptyCollCoords n = false) : hgMember c (.mk ty n []) = geomMemberN c n := hand_doc_eq' c ty n h1 h2
+
+/-- "ring and bound as the equivalent polygon", for the hand-built path: five positions in ONE ring,
+    nested three deep -/
+theorem hand_bound_doc (c : Codec) (ty : String) (a b : Pt UInt64) :
+    hgMember c (.mk ty (.bound a b) []) =
+      .obj [("type", .str "Polygon"), ("coordinates", .arr [ptsJ (boundRing a b)])] ∧
+    wellformed (hgMember c (.mk ty (.bound a b) [])) = true := hand_bound_doc' c ty a b
+
+theorem hand_ring_doc (c : Codec) (ty : String) (ps : List (Pt UInt64)) :
+    hgMember c (.mk ty (.ring (some ps)) []) =
+      .obj [("type", .str "Polygon"), ("coordinates", .arr [ptsJ ps])] := hand_ring_doc' c ty ps
+
+/-- the value's `Type` string is not what is written -/
+theorem hand_type_ignored (c : Codec) (ty ty' : String) (n : NG) (gs : List HG) :
+    hgMember c (.mk ty n gs) = hgMember c (.mk ty' n gs) := hand_type_ignored' c ty ty' n gs
+
+/-- the round-trip clause for `json.Marshal(&geojson.Geometry{Coordinates: x})` / `bson.Marshal(…)` -/
+theorem hand_roundtrip (c : Codec) (ty : String) (n : NG) (hok : okG (forgetNil n) = true)
+    (hb : c = .json ∨ nonEmptyMulti (forgetNil n) = true) (hne : isEmptyColl (forgetNil n) = false) :
+    ∃ v, geomOfDoc c (hgTop c (.mk ty n [])) = .ok v ∧ v.toGeom = canonG (forgetNil n) :=
+  hand_roundtrip' c ty n hok hb hne
+
+/-! ### receivers: "the decode is a function of the document" -/
+
+/-- a new `Geometry` receiver observes what `geomOfDoc` says -/
+theorem geomInto_fresh (c : Codec) (j : Json) : (geomInto c {} j).map (·.geometry) = geomOfDoc c j :=
+  geomInto_fresh' c j
+
+/-- `(*Geometry).UnmarshalJSON/BSON` into a receiver with an earlier value: exactly as into a new one
+    when the field of the OTHER switch arm is nil -/
+theorem geom_receiver_same_arm (old : GRecv) (d : DG) (h1 : d.isColl = false → old.geoms = none)
+    (h2 : d.isColl = true → old.coords = none) : old.assign d = ({} : GRecv).assign d :=
+  geom_receiver_same_arm' old d h1 h2
+
+theorem geom_receiver_clean (c : Codec) (old : GRecv) (j : Json) (hc : old.coords = none)
+    (hg : old.geoms = none) : geomInto c old j = geomInto c {} j := geom_receiver_clean' c old j hc hg
+
+/-- the full statement (`geom_receiver_history_full`, OrbProofs/C02Recv.lean) is FALSE: known finding
+    C02-geometry-receiver-reuse -/
+theorem geom_receiver_history_full_false : ¬ geom_receiver_history_full := geom_receiver_history_full_false'
+
+/-- `Feature`, `FeatureCollection`, the six typed helpers: every success path assigns the whole value -/
+theorem feature_receiver_history (c : Codec) (rawNull : Bool) (old old' : Feature) (j : Json)
+    (h : (featureOfDoc c rawNull j).isOk = true) :
+    featureInto c rawNull old j = featureInto c rawNull old' j := feature_receiver_history' c rawNull old old' j h
+
+theorem fc_receiver_history (c : Codec) (rawNull : Bool) (old old' : FC) (j : Json) :
+    fcInto c rawNull old j = fcInto c rawNull old' j := fc_receiver_history' c rawNull old old' j
+
+theorem typed_receiver_history (c : Codec) (k : Kind) (old old' : V) (j : Json)
+    (h : (typedOfDoc c k j).isOk = true) : typedInto c k old j = typedInto c k old' j :=
+  typed_receiver_history' c k old old' j h
+
+/-- a feature with a null geometry decoded into a receiver that holds a point: no geometry afterwards -/
+example :
+    (featureInto .json false { geom := .val (.point ⟨0, 0⟩) }
+      (.obj [("type", .str "Feature"), ("geometry", .null), ("properties", .null)])).geom = .nilIface := by
+  rfl
 
 /-! ### non-vacuity -/
 
